@@ -345,6 +345,9 @@ func (ls *LanceroSource) PrepareChannels() error {
 	cnum := ls.firstRowChanNum
 	thisColFirstCnum := cnum - ls.chanSepColumns
 	ls.groupKeysSorted = make([]GroupIndex, 0)
+	// The source object is re-used from run to run: forget the row count of the previous run.
+	ls.subframeDivisions = 0
+	ls.mixedRowCounts = false
 	for _, device := range ls.active {
 		// For Lancero sources, subframeDivisions = the number of rows.
 		// For sources with multiple LanceroDevice objects, its meaning is ambiguous, but we'll
